@@ -1,5 +1,6 @@
 """C03 - FASTA output is exactly the output AGP applied to the input FASTA.  Spec: Fasta.tla parts 1 and 4, FastaTrace.tla.
-(The end-to-end part through the pretext-to-asm CLI is judged in harness/remap_cli.py once built.)"""
+The end-to-end clause runs the real pretext-to-asm CLI (FASTA in, FASTA + AGP out, stream buffers 16 / 64 / 250000) and judges every written
+record as the stream of the rows its companion AGP lists over the input FASTA (harness/cli_engine.py cli_fasta_case)."""
 from harness import common as C
 from harness import fasta_engine as E
 
@@ -14,7 +15,7 @@ def main(tier, replay=None):
     if replay:
         traces, jr = E.replay_one(run, tier, replay, OPTS, ())
         C.finish(run, "C03", C.report(run, "C03", jr["V"], {t["tid"]: t for t in traces}))
-    mcs, traces, jr = E.engine(run, tier, "C03", OPTS, ("stream",))
+    mcs, traces, jr = E.engine(run, tier, "C03", OPTS, ("stream",), extra_kinds=("cli",))
     n = C.report(run, "C03", jr["V"], {t["tid"]: t for t in traces})
     for m in jr["M"][:5]:
         print(f"MODEL-DRIFT action={m[2]} trace={m[1]} detail={m[3]}")
